@@ -296,10 +296,10 @@ Definition c08_quota_ok (st : ustate) (op : qop) (o : qsobs) : bool :=
           claimed_within (so_top o) (sum_res (victims_of w (so_marked o))) &&
           claimed_within (so_top o) (sum_ores (map lb_pre (so_leaves o))) &&
           forallb (fun l => claimed_within (lb_pre l) (lb_claimed l)) (so_leaves o) &&
-          (* never from a queue at or below its guaranteed share *)
+          (* never from a child queue at or below its guaranteed share; the queue itself must be above its maximum *)
           forallb (fun k => match find_alloc (w_allocs w) k with
                             | Some a => match find_queue (w_queues w) (a_queue a) with
-                                        | Some lq => negb (at_or_below_guarantee lq)
+                                        | Some lq => if N.eqb (q_id lq) qid then above_max lq else negb (at_or_below_guarantee lq)
                                         | None => false end
                             | None => false end) (so_marked o)
       end
